@@ -250,8 +250,17 @@ def worker(job):
             tail = ["(", "-delete", "-printf", "D:%p\\0", "-o", "-quit", ")"] if quit_after_failure else ["-delete", "-printf", "D:%p\\0"]
             if quit_after_failure:
                 st.inc("runs_with_quit_after_the_first_failed_removal")
+            dflag = flag
+            if mode == "L" and rng.random() < 0.5:
+                # the same follow mode spelled -follow, written before or AFTER -delete: a global option wherever it stands
+                dflag = []
+                if rng.random() < 0.6:
+                    tail = tail + ["-follow"]
+                    st.inc("runs_with_follow_written_after_delete")
+                else:
+                    tail = ["-follow"] + tail
             dele = ["strace", "-f", "-qq", "-s", "4096", "-o", slog, "-e", "trace=" + MUTATING,
-                    common.FIND] + flag + roots + ["-sorted"] + expr + tail
+                    common.FIND] + dflag + roots + ["-sorted"] + expr + tail
             rc, out, err, to = common.run_cmd(dele, cwd=sb, env=env, timeout=120)
             st.inc("evaluations")
             st.inc("runs_mode_" + mode)
